@@ -48,7 +48,7 @@ STUBS = [
     "np -> vx.symnp in calibration.fitness, calibration.fitting_datatree, pipelines.processor; float() shadowed in calibration.fitness",
 ]
 OUTSIDE = [
-    "re-simulating the champion reproduces the reported fitness; champion fitness never worsens (pygmo internals)",
+    "pygmo itself (its champion is assumed to be the best-ever individual of an island and never to get worse); what pyxel reports from it is encoded",
     "NaN handling of nansum (real arithmetic)",
     "negative or reversed fit-range bounds (documented form 0 <= start <= stop assumed)",
 ]
